@@ -331,7 +331,29 @@ impl Property for C03Prop {
 
     fn gen_case(&self, tape: &mut Tape, tier: Tier) -> Option<Json> {
         let _ = scratch_dir();
-        match tape.weighted(&[4, 5, 3]) {
+        match tape.weighted(&[4, 5, 3, 4]) {
+            3 => {
+                // a typed program (shadowing, redeclaration of a name from its own old value, closures,
+                // cells, iterators ...), as it is or with token-level edits: accepted or nearly accepted
+                // programs reach the folding pass, which re-resolves names
+                use crate::genr::{ast::Hide, case, prog::Profile};
+                let profile = *tape.pick(&[Profile::SCOPING, Profile::GENERAL, Profile::CONSTANTS, Profile::CONTROL, Profile::CELLS, Profile::ITERATORS]);
+                let program = case::generate(tape, profile.with_free_dispatch());
+                if !case::import_files(&program).is_empty() {
+                    return None;
+                }
+                let hide = match tape.below(3) {
+                    0 => Hide::None,
+                    1 => Hide::All,
+                    _ => Hide::Mask(tape.u64()),
+                };
+                let text = case::print(&program, hide);
+                if tape.bool() {
+                    Some(json!({"src": "typed-program", "text": text}))
+                } else {
+                    Some(json!({"src": "typed-near-miss", "text": crate::genr::nearmiss::mutate_text(&text, tape)}))
+                }
+            }
             0 => {
                 let n = 1 + tape.below(tier.of(16, 24));
                 let toks: Vec<&str> = (0..n).map(|_| *tape.pick(&TOKENS)).collect();
@@ -507,6 +529,36 @@ pub fn run(session: &Session) -> i32 {
         cases.push(json!({"src": "constant-failure", "text": p}));
     }
     {
+        // the matrix once more with operands that are constants of a union static type
+        // (`[v1, v2][k]` has the union of the element types and folds to one element): the checker
+        // judges the union, the folding pass then applies the operator to the element
+        use crate::genr::matrix::{CATALOGUE, INFIX, UNARY};
+        let constant = |o: &crate::genr::matrix::Operand, k: usize| format!("[{}][{k}]", o.values.join(", "));
+        let mixed: Vec<&crate::genr::matrix::Operand> = CATALOGUE
+            .iter()
+            .filter(|o| !o.values.is_empty() && (o.ty.contains('|') || matches!(o.ty, "any" | "int" | "float" | "string" | "bool" | "()" | "[int]" | "[any]")))
+            .collect();
+        for x in CATALOGUE {
+            for k in 0..x.values.len() {
+                for t in UNARY {
+                    let body = t.replace('X', "x");
+                    cases.push(json!({"src": "matrix-constant", "text": format!("x := {}; {body}", constant(x, k))}));
+                }
+            }
+        }
+        for x in &mixed {
+            for y in &mixed {
+                for k in 0..x.values.len() {
+                    for j in 0..y.values.len() {
+                        for op in INFIX {
+                            cases.push(json!({"src": "matrix-constant", "text": format!("x := {}; y := {}; x {op} y", constant(x, k), constant(y, j))}));
+                        }
+                    }
+                }
+            }
+        }
+    }
+    {
         // constant operations on boundary operands are evaluated while parsing
         use crate::props::c08::{float_grid, int_grid, lit_float};
         let ints: Vec<String> = int_grid().into_iter().map(|i| crate::lit::to_text(&json!(i))).collect();
@@ -551,7 +603,7 @@ pub fn run(session: &Session) -> i32 {
         session.run_tapes(&C03, session.tier.of(60_000, 3_000_000), 400, 0);
     }
     let code = session.finish(
-        "(constant-folding: every pair of the i64 and f64 boundary grids under every foldable operator, and boundary ints in index, slice, length and propagated-binding positions) inputs fed to Code::parse (against an interpreter with stdlib and bound names, and against an empty one), Code::return_type, Error::to_string, Variable::from_str and Type::from_str: every sequence of 1-2 tokens (quick; 1-3 thorough) over a 138-token alphabet (all keywords, every operator, brackets, literal samples incl. a too-big int, bound and unbound identifiers, composite fragments) plus unfinished-construct prefixes x token x closer, random token sequences up to length 16/24, random derivations of the project's own pest grammar read at run time (start rules input/line/stm/expr/function/match/type/only_var/slicing; identifiers mapped onto bound names), token-level mutations (delete/duplicate/swap/replace/insert) of the README, docs and example scripts, the operator x operand-type matrix (every unary/postfix/statement template, every infix and assignment operator and 28 two-operand templates applied to parameters of 60 types incl. `!`, `any` and unions of arrays, tuples, structs, muts, functions and iterators), 10 always-failing constant operations in 28 syntactic positions, and imports of 13 file states (missing, directory, syntax error, type error, folding error, non-UTF-8, nested, empty, top-level return/break) in 11 positions. Oracle: no panic. Non-trivial = the text passes the grammar (reaches instruction construction); distinct by text.",
+        "(constant-folding: every pair of the i64 and f64 boundary grids under every foldable operator, and boundary ints in index, slice, length and propagated-binding positions) inputs fed to Code::parse (against an interpreter with stdlib and bound names, and against an empty one), Code::return_type, Error::to_string, Variable::from_str and Type::from_str: every sequence of 1-2 tokens (quick; 1-3 thorough) over a 138-token alphabet (all keywords, every operator, brackets, literal samples incl. a too-big int, bound and unbound identifiers, composite fragments) plus unfinished-construct prefixes x token x closer, random token sequences up to length 16/24, random derivations of the project's own pest grammar read at run time (start rules input/line/stm/expr/function/match/type/only_var/slicing; identifiers mapped onto bound names), token-level mutations (delete/duplicate/swap/replace/insert) of the README, docs and example scripts, the operator x operand-type matrix (every unary/postfix/statement template, every infix and assignment operator and 28 two-operand templates applied to parameters of 60 types incl. `!`, `any` and unions of arrays, tuples, structs, muts, functions and iterators), the same matrix over operands that are constants of a union static type (`[v1, v2][k]`: every unary template x every catalogue value, every infix operator x all pairs of values of 30 scalar / union / any operand types), tape-generated typed programs of six profiles as they are and with token-level edits, 10 always-failing constant operations in 28 syntactic positions, and imports of 13 file states (missing, directory, syntax error, type error, folding error, non-UTF-8, nested, empty, top-level return/break) in 11 positions. Oracle: no panic. Non-trivial = the text passes the grammar (reaches instruction construction); distinct by text.",
         false,
         &["inputs nested deeper than 40 brackets and imports outside the scratch directory are discarded and counted",
           "the working directory of the check process is a scratch directory"],
